@@ -25,6 +25,8 @@ Static clauses (each a necessary condition of "nothing added, dropped, re-associ
   KIND      number / asset arithmetic keeps its kind: add / neg of the Arithmetic impls for i128 and for asset bags build only
             Expression::Number resp. Expression::Assets, never the absent operand `None`
   MERGE / FORMULA  see C02 (quantity maps are merged by aggregation) and E15 (slot <-> time are the affine maps)
+  G-SKIP    the grammar's implicit WHITESPACE / COMMENT skipping is never followed by something that can begin with a blank (the
+            body of a string literal): what a literal contains is what the author wrote (grammar AST: atomicity, first characters)
 Not decided: the semantic equality itself - arithmetic results, coercions, address construction, CBOR content.
 """
 import re
